@@ -544,6 +544,13 @@ def check(tier):
             continue
         seen11.add(v["klass"])
         rep.violation("%s in typed .pyx workload (run %s): %s" % (v["klass"], i, json.dumps(v["detail"])[:300]), dict(v, seed=seed, run_index=i))
+    if mods11:
+        a11 = dict(core.run_forked(e11_pyx.one_run, PROP, seed, range(4), cfg11, jobs=2))
+        b11 = dict(core.run_forked(e11_pyx.one_run, PROP, seed, range(4), cfg11, jobs=3))
+        mism11 = sum(core.digest(a11[k]) != core.digest(b11[k]) for k in range(4))
+        rep.extra["determinism_selfcheck_typed_pyx_family"] = {"seeds": 4, "mismatches": mism11}
+        if mism11:
+            rep.harness_errors.append("determinism self-check of the typed .pyx family failed")
     core.replay_known(PROP, replay, rep)
     if mods:
         a = dict(core.run_forked(one_run, PROP, seed, range(6), cfg, jobs=2))
